@@ -116,6 +116,9 @@ type State struct {
 	// Per block.
 	Logs []Log
 
+	// RipemdKept counts reverts in which the touched mark of 0x03 survived (evidence only).
+	RipemdKept int
+
 	snaps []*frame
 }
 
@@ -295,6 +298,9 @@ func (s *State) Revert(id int) {
 	s.WarmAddr, s.WarmSlot, s.Refund = f.warmAddr, f.warmSlot, f.refund
 	s.Logs = s.Logs[:f.nlogs]
 	if ripemdTouched {
+		if !s.Touched[RIPEMD] {
+			s.RipemdKept++
+		}
 		s.Touched[RIPEMD] = true
 	}
 	s.snaps = s.snaps[:id]
